@@ -472,12 +472,14 @@ def s4_distinct_names(prog, ctx):
             if not any(isinstance(e, ast.Name) and e.id == R for e in r.value.elts):
                 ctx.fail("S4", r, q, "return without %s" % R, "the returned names are not the list the duplicate look-ups were made in")
         # (b) per iteration: a name assigned on a path is looked up in R after its last plain assignment
+        seen_fail = set()
         for lp in [l for l in walk_no_nested(f) if isinstance(l, (ast.For, ast.While)) and not flow.enclosing_loops(l)]:
             if not any(isinstance(x, ast.Name) and x.id in names and isinstance(x.ctx, ast.Store) for x in ast.walk(lp)):
                 continue
             for p in flow.block_paths(lp.body, "%s loop at line %d" % (q, lp.lineno)):
                 state = {}           # name -> "assigned" | "looked-up"
                 hit = set()
+                absent = set()       # expressions looked up in R and found absent on this path
                 for ev in p.events:
                     if ev[0] == "cond":
                         for c in ast.walk(ev[1]):
@@ -487,6 +489,9 @@ def s4_distinct_names(prog, ctx):
                                 present = isinstance(c.ops[0], ast.In) == ev[2]
                                 if present and ev[1] is c:
                                     hit.add(c.left.id)
+                            if isinstance(c, ast.Compare) and len(c.ops) == 1 and isinstance(c.ops[0], (ast.In, ast.NotIn)) \
+                                    and src(c.comparators[0]) == R and ev[1] is c and (isinstance(c.ops[0], ast.In) != ev[2]):
+                                absent.add(src(c.left))
                         continue
                     if ev[0] != "stmt":
                         continue
@@ -497,10 +502,24 @@ def s4_distinct_names(prog, ctx):
                     if isinstance(st, ast.Assign):
                         for t in st.targets:
                             if isinstance(t, ast.Name) and t.id in names:
-                                # the replacement made because the look-up hit is part of the duplicate handling
-                                state[t.id] = "looked-up" if t.id in hit else "assigned"
+                                # the replacement made because the look-up hit is part of the duplicate handling - provided the
+                                # replacement was itself looked up (and found absent) on this path
                                 if t.id in hit:
                                     hit.discard(t.id)
+                                    if src(st.value) in absent:
+                                        state[t.id] = "looked-up"
+                                    else:
+                                        state[t.id] = "looked-up"          # reported once here; no follow-up reports for the same cause
+                                        if ("repl", st.lineno) not in seen_fail:
+                                            seen_fail.add(("repl", st.lineno))
+                                            n += 1
+                                            ctx.fail("S4", st, q, "replacement %s not looked up" % src(st.value)[:40],
+                                                     "`%s` replaces a name that is already taken, but on the path [%s] the replacement was not "
+                                                     "looked up in %s itself: it can coincide with the name of an earlier experiment, and the two "
+                                                     "then share an output folder and overwrite each other's files"
+                                                     % (src(st.value)[:40], p.describe()[:120], R))
+                                else:
+                                    state[t.id] = "assigned"
                     elif isinstance(st, ast.AugAssign) and isinstance(st.target, ast.Name) and st.target.id in names:
                         state[st.target.id] = "assigned"
                     if isinstance(st, ast.Expr) and isinstance(st.value, ast.Call) and src(st.value.func) == R + ".append" and st.value.args \
@@ -525,8 +544,8 @@ def s4_distinct_names(prog, ctx):
 def run(prog, ctx):
     ctx.rule("S4", "the experiment names returned by get_samples_from_file / get_samples_from_yaml are pairwise distinct by the parsers' own "
                    "argument: the returned list starts empty, grows only by append(name), is never rebuilt, and on every path of the "
-                   "experiment loop a name is looked up in that list after its last assignment (the replacement under a hit counts as "
-                   "part of the look-up)")
+                   "experiment loop a name is looked up in that list after its last assignment; a replacement assigned under a hit must "
+                   "itself have been looked up and found absent on that path")
     s4_distinct_names(prog, ctx)
     ctx.rule("S2", "in every outermost loop of src/input_data_storage.py (experiment enumeration) a local that is assigned inside the "
                    "loop is assigned on every path of the current iteration before it is read; only `x += const` counters carry")
